@@ -136,9 +136,9 @@ Proof. vm_compute. repeat split; repeat constructor; cbn; intuition discriminate
     by afd801a: [load_impl] refuses a [contents] in which two names share a file; f6784f0: compared lower-cased).
     Where the distinctness of the paths comes from:
     - a LOADED layer: from load's own check, proved here ([C19_loaded_paths_distinct]);
-    - a layer built through the API: from the container invariant ([insert_glyph] picks a file
-      name that is not in [path_set]; properties C06/C07) — there it is the hypothesis
-      [NoDup (map fst ws)] of [C19_par_save_eq_seq].
+    - a layer built or edited through the API: from C06's invariant and C07's distinctness
+      theorem, for every reachable container state — proved in Props/C19api.v
+      ([C19_save_full_api], [.._new_font], [.._loaded], [C19_save_font_full_api]).
     Without any source of distinctness the write order would show: see the last example. *)
 Theorem C19_loaded_paths_distinct : forall sched s ts enc,
   (exists m, snd (par_layer sched s ts) = inr m) -> NoDup (map fst (save_tasks enc ts)).
